@@ -296,11 +296,17 @@ class InProtocolBase(ProtocolMixin):
     def any_html_from_bytes(self, cls, string):
         try:
             return html.fromstring(string)
+
         except etree.ParserError as e:
             if e.args[0] == "Document is empty":
                 pass
             else:
-                raise
+                raise ValidationError(string, "%%r: %r" % e)
+
+        except (etree.XMLSyntaxError, ValueError) as e:
+            # ValueError: lxml does not take text that comes with an encoding
+            # declaration
+            raise ValidationError(string, "%%r: %r" % e)
 
     def uuid_from_unicode(self, cls, string, suggested_encoding=None):
         attr = self.get_cls_attrs(cls)
